@@ -140,16 +140,22 @@ Theorem C15_aes_patch_idempotent :
 Proof. intros [|] [|]; reflexivity. Qed.
 Print Assumptions C15_aes_patch_idempotent.
 
-(* with the lazy installation the RESULT for an AES-128 file depends on the history ... *)
+(* with the purely lazy installation the RESULT for an AES-128 file depends on the history ... *)
 Theorem C15_aes_result_history_refuted :
   exists (history : list pdf_kind) (k : pdf_kind),
-    fst (aes_extract false (aes_docs false false history) k) <> fst (aes_extract false false k).
+    fst (aes_extract Lazy (aes_docs Lazy false history) k) <> fst (aes_extract Lazy false k).
 Proof. exists [AesAtOpen], AesLate. vm_compute. discriminate. Qed.
 Print Assumptions C15_aes_result_history_refuted.
 
-(* ... with the eager installation it does not, for every history and every kind of file *)
+(* ... installed for every encrypted document (or eagerly) it does not, for every history, every
+   initial state of the provider and every kind of file *)
 Theorem C15_aes_result_history_independent :
-  forall (history : list pdf_kind) (k : pdf_kind),
-    fst (aes_extract true (aes_docs true false history) k) = fst (aes_extract true false k).
-Proof. intros history k. destruct k; reflexivity. Qed.
+  forall (m : aes_install) (history : list pdf_kind) (p0 : bool) (k : pdf_kind),
+    aes_mode_safe m = true ->
+    fst (aes_extract m (aes_docs m p0 history) k) = fst (aes_extract m p0 k).
+Proof. intros m history p0 k H. destruct m; [discriminate| |]; destruct k; reflexivity. Qed.
 Print Assumptions C15_aes_result_history_independent.
+
+Example C15_aes_mode_safe_satisfiable : aes_mode_safe OnEncrypted = true /\ aes_mode_safe Eager = true.
+Proof. split; reflexivity. Qed.
+Print Assumptions C15_aes_mode_safe_satisfiable.
